@@ -246,7 +246,7 @@ def compute_slots(repo, col, rule: str, emit=("jaxedges", "rec_index", "external
         for kv in T.find_all(r, lambda x: x.op == "kv" and x.args[0].op == "const" and x.args[0].name == "indices"):
             prods.append((fi2, kv.node or fi2.node, kv.args[1], "data_set"))
             break
-    if len(prods) < 2:
+    if not any(nm == "data_set" for *_x, nm in prods) and not any(nm == "make_trainable" for *_x, nm in prods):
         raise AnalysisError("producers of pstate indices (make_trainable / data_set) not found")
     for kc in KCS:
         want = "N" if kc == "node" else "E"
